@@ -51,8 +51,12 @@ PROPS = {
     "C16": dict(engine=SYS, variants=["A"], quick=300, thorough=8000),
     "C17": dict(engine=SYS, variants=["A", "B"], quick=360, thorough=9000),
     "C18": dict(engine=SYS, variants=["A", "B"], quick=360, thorough=9000),
+    "C19": dict(engine=COMP, variants=["A"], quick=600, thorough=40000),
+    "C20": dict(engine=COMP, variants=["A"], quick=600, thorough=40000),
+    "C23": dict(engine=COMP, variants=["A"], quick=600, thorough=40000),
     "C28": dict(engine=SYS, variants=["A", "C"], quick=300, thorough=8000),
     "C29": dict(engine=SYS, variants=["A", "C"], quick=64, thorough=1500),
+    "C30": dict(engine=COMP, variants=["A"], quick=400, thorough=20000),
     "C31": dict(engine=SYS, variants=["A"], quick=240, thorough=6000),
     "C34": dict(engine=SYS, variants=["A", "C"], quick=200, thorough=4000),
     "C36": dict(engine=SYS, variants=["A", "B"], quick=300, thorough=8000),
@@ -84,7 +88,11 @@ RELATED = {
     "C16": {"C16", "C14"},
     "C17": {"C17", "C01"},
     "C18": {"C18"},
+    "C19": {"C19"},
+    "C20": {"C20"},
+    "C23": {"C23"},
     "C28": {"C28", "C02"},
+    "C30": {"C30"},
     "C29": {"C29", "C31"},
     "C31": {"C31"},
     "C34": {"C34", "C01", "C02"},
@@ -96,19 +104,26 @@ RELATED = {
 
 # Properties with schedule/fault content for which no check is claimed (yet), with the reason.
 UNCLAIMED = {
-    "C19": "component simulation of BlockPool not built",
-    "C20": "component simulation of concurrent side-metadata access not built",
     "C21": "bulk metadata operations: component simulation not built",
-    "C23": "component simulation of concurrent header-metadata access not built",
     "C26": "free-list histories have no schedule or fault content; component simulation not built",
     "C27": "grow_freelist under mmap faults: component simulation not built",
-    "C30": "component simulation of the mmapper (concurrent ensure_mapped + mmap faults) not built",
 }
 
 
 def counts_for(prop, o):
     n = o.get("native_property") or ""
     return n == "" or n in RELATED.get(prop, {prop})
+
+
+REAL_VS_STUB = {
+    SYS: "real: all of mmtk-core (plans, policies, allocators, metadata, scheduler, mmap). stub: the VM binding "
+         "(SimVM), blocking of Mutex/Condvar/RwLock (shim over the real try_lock), Instant (simulated clock), "
+         "thread scheduling (token scheduler), getrandom (fixed bytes)",
+    COMP: "real: the mmtk-core component under test (BlockPool / SideMetadataSpec / HeaderMetadataSpec / "
+          "ChunkStateMmapper, the latter with real mmap system calls) reached through cfg(mmtk_verif) wrappers. stub: its "
+          "callers (simulated threads issuing generated operations), thread scheduling (token scheduler, context switches "
+          "at the raw-metadata / block-queue / lock yield points), mmap failures (injected ENOMEM)",
+}
 
 
 def load_known():
@@ -185,7 +200,7 @@ def summarise_run(o):
 def write_evidence(prop, tier, base_seed, results, wall, violations, known_hits, extra_assumptions=(), other_violations=None):
     os.makedirs(EVIDENCE, exist_ok=True)
     ok = [o for o in results if o.get("status") in ("ok", "violation")]
-    nontrivial = [o for o in ok if (o.get("pauses", 0) >= 1 or o.get("plan") == "NoGC") and o.get("sched", {}).get("switches", 0) >= 2]
+    nontrivial = [o for o in ok if (o.get("pauses", 0) >= 1 or o.get("plan") in ("NoGC", "comp")) and o.get("sched", {}).get("switches", 0) >= 2]
     distinct = len({(o["sched"].get("switch_hash"), o["sched"].get("trace_hash")) for o in nontrivial})
     faults = {}
     counters = {}
@@ -225,7 +240,7 @@ def write_evidence(prop, tier, base_seed, results, wall, violations, known_hits,
             "distinct_nontrivial": distinct,
             "rule": "one evaluation = one simulated run (real MMTK<SimVM> in its own process) of a workload, configuration, "
                     "schedule and fault sequence all derived from one seed; non-trivial = the run completed at least one GC pause "
-                    "(or ran under NoGC) with at least 2 scheduler-decided context switches; distinct = distinct "
+                    "(or ran under NoGC, or is a component simulation) with at least 2 scheduler-decided context switches; distinct = distinct "
                     "(context-switch-sequence hash, full event-trace hash) pairs among the non-trivial runs",
             "samples": samples,
             "runs_per_hour": round(len(results) / max(wall, 1e-6) * 3600),
@@ -241,9 +256,7 @@ def write_evidence(prop, tier, base_seed, results, wall, violations, known_hits,
             "harness_error_samples": [o.get("message", "")[:200] for o in harness_errors[:3]],
             "known_findings_hit": known_hits,
             "violations_of_other_properties_seen": other_violations or {},
-            "real_vs_stub": "real: all of mmtk-core (plans, policies, allocators, metadata, scheduler, mmap). stub: the VM binding "
-                            "(SimVM), blocking of Mutex/Condvar/RwLock (shim over the real try_lock), Instant (simulated clock), "
-                            "thread scheduling (token scheduler), getrandom (fixed bytes)",
+            "real_vs_stub": REAL_VS_STUB[PROPS[prop]["engine"]],
         },
         "assumptions": [
             "interleavings are explored at hook sites only and every run is sequentially consistent",
